@@ -330,6 +330,31 @@ def run_job(job, rec):
             ok = (not isinstance(g, Raised)) and np.shape(g) == (d,) and bool(np.all(np.isfinite(g))) and bool(np.abs(np.asarray(g) - true).max() <= 2e-3 * gs)
             rec.check(ok, "finite-difference-gradient",
                       lambda: f"T={T}: finite_diff({t}) = {g!r} but the gradient of the log-density is {true}", {**cfg, "t": t})
+    # ------------------------------------------------ (d') a mass specification that is not a covariance (two triangles differ): refused, or self-consistent
+    for c in range(max(3, job["n_cfg"] // 6)):
+        d = int(rng.choice([2, 3, 4]))
+        Bm = rng.normal(size=(d, d))
+        good = Bm @ Bm.T / d + 0.5 * np.eye(d)
+        bad = np.tril(good) + np.triu(good, 1) * float(rng.uniform(0.2, 0.7))        # lower triangle of one estimate, upper of another
+        mctx = {"asymmetric_inverse_mass": c, "d": d}
+        rec.context = mctx
+        pot = Potential(rng, d)
+        ch = guarded(HamiltonianChain, posterior=pot, start=np.zeros(d), grad=pot.grad, inverse_mass=bad, display_progress=False)
+        rec.count("asymmetric_mass_cases")
+        if isinstance(ch, Raised):
+            rec.count("asymmetric_mass_cases:refused")
+            continue
+        # accepted: then the momenta must be drawn under the kinetic energy that is used, E[r . v(r)] = d for r ~ N(0, M), v = M^-1 r
+
+        def pv_m(n_, stage, ch=ch, d=d):
+            g_ = np.random.default_rng(rng.integers(2**63))
+            vals = np.array([2.0 * float(ch.kinetic_energy(np.asarray(ch.mass.sample_momentum(g_), float))) for _ in range(n_)])
+            zscore = (vals.mean() - d) / (vals.std(ddof=1) / np.sqrt(n_) + 1e-300)
+            return st.z_to_p(zscore)
+
+        st.two_stage(rec, "momentum-law", pv_m, 4000,
+                     lambda: f"an inverse mass whose triangles differ was accepted (d={d}), but twice the kinetic energy of freshly drawn momenta does not average to d", mctx)
+
     # ------------------------------------------------ (e') fallback gradient in narrow boxes far from zero, next to the walls
     class Shifted:
         def __init__(self, pot, centre):
